@@ -72,20 +72,35 @@ type rect struct {
 	// x, y, width, height are common attributes
 
 	rx, ry Value
+	// rxIsRy (resp. ryIsRx) is true when only `ry` (resp. `rx`) is given: the
+	// other radius is the same absolute length, so that its percentages
+	// refer to the height (resp. width) of the viewport as well
+	rxIsRy, ryIsRx bool
+}
+
+// radii resolves the two corner radii against the viewport
+func (r rect) radii(dims drawingDims) (rx, ry Fl) {
+	rx, ry = dims.point(r.rx, r.ry)
+	if r.rxIsRy {
+		rx = r.rx.Resolve(dims.fontSize, dims.innerHeight)
+	} else if r.ryIsRx {
+		ry = r.ry.Resolve(dims.fontSize, dims.innerWidth)
+	}
+	return rx, ry
 }
 
 func newRect(node *cascadedNode, _ *svgContext) (drawable, error) {
 	rx_, ry_ := node.attrs["rx"], node.attrs["ry"]
-	if rx_ == "" {
-		rx_ = ry_
-	} else if ry_ == "" {
-		ry_ = rx_
-	}
-
 	var (
 		out rect
 		err error
 	)
+	if rx_ == "" {
+		rx_, out.rxIsRy = ry_, true
+	} else if ry_ == "" {
+		ry_, out.ryIsRx = rx_, true
+	}
+
 	out.rx, err = parseValue(rx_)
 	if err != nil {
 		return nil, err
@@ -104,7 +119,7 @@ func (r rect) draw(dst backend.Canvas, attrs *attributes, _ *SVGImage, dims draw
 		return nil
 	}
 	x, y := dims.point(attrs.x, attrs.y)
-	rx, ry := dims.point(r.rx, r.ry)
+	rx, ry := r.radii(dims)
 
 	if rx == 0 || ry == 0 { // no border radius
 		dst.Rectangle(x, y, width, height)
